@@ -691,8 +691,12 @@ func (w *c02World) offerObj(out *vlib.Out, o c02Offer) (accepted *DecoyRegistrat
 			if r.tr != pb.TransportType_Obfs4 {
 				continue
 			}
-			if obfs4.VerifMarkAtTail(w.mkDecoy(r), o.data) {
-				marks = append(marks, fmt.Sprint(r.rid))
+			// the registration's mark over this buffer's representative (HMAC: an oracle); WHERE it has to
+			// sit in the buffer is the model's business (CJ.WrapStream.findMarkTail)
+			if mk := obfs4.VerifMarkOf(w.mkDecoy(r), o.data); mk != nil {
+				marks = append(marks, fmt.Sprintf("%d=%s", r.rid, vlib.Hex(mk)))
+			} else {
+				marks = append(marks, fmt.Sprintf("%d=-", r.rid))
 			}
 		}
 	}
@@ -701,7 +705,7 @@ func (w *c02World) offerObj(out *vlib.Out, o c02Offer) (accepted *DecoyRegistrat
 		info = append(info, fmt.Sprintf("%s,%s,%s,%d", c08Phantoms[r.ph], r.ident, r.ppText(), r.rid))
 	}
 	model := fmt.Sprintf("regwrap|600|21600|1,2,4|%s|%s|%s|%s|%s|%s|%s", strings.Join(w.mops, ";"), strings.Join(info, ";"),
-		c08Phantoms[o.ph], trName(o.tr), vlib.Hex(o.data), strings.Join(reveal, ","), strings.Join(marks, ","))
+		c08Phantoms[o.ph], trName(o.tr), vlib.Hex(o.data), strings.Join(reveal, ","), c02MarksField(marks))
 	// ---- canonical implementation answer
 	var matched *c02Reg
 	if dr, ok := reg.(*DecoyRegistration); ok && dr != nil {
@@ -776,6 +780,14 @@ func (w *c02World) offerObj(out *vlib.Out, o c02Offer) (accepted *DecoyRegistrat
 		fail("C02:unvalidated-accepted", fmt.Sprintf("registration %d was never validated", legit.rid))
 	}
 	return accepted
+}
+
+// c02MarksField: `m:<rid>=<mark hex>,…` (per-registration marks; the model searches) or empty
+func c02MarksField(marks []string) string {
+	if len(marks) == 0 {
+		return ""
+	}
+	return "m:" + strings.Join(marks, ",")
 }
 
 func flip(b []byte, bit int) []byte {
